@@ -326,6 +326,15 @@ def run(cx):
     # ------------------------------------------------------------------ R15c ordering
     def check_join(j, f, src_attr, list_name, rule_anchor):
         a = j.args[0]
+        if isinstance(a, ast.Name):
+            # the fragments collected in a local first (a comprehension, or an accumulation loop read as one by sa/alpha)
+            from sa.guards import reaching_def as _rd
+            r_ = _rd(a.id, j, calls=True, containers=True)
+            if r_ is None:
+                ds_ = [v_ for _s, v_ in assignments(f, a.id)]
+                r_ = (ds_[0], None) if len(ds_) == 1 and ds_[0] is not None else None
+            if r_ is not None:
+                a = r_[0]
         ok = isinstance(a, (ast.GeneratorExp, ast.ListComp)) and len(a.generators) == 1 and not a.generators[0].ifs
         if ok:
             g = a.generators[0]
@@ -589,6 +598,9 @@ def _normalisation(cx, init, make, tables):
                         continue
                     events = [e for e in o.env.get("@events", ()) if e[0] == "values_list"]
                     text = o.value
+                    if not isinstance(text, (C, S)):
+                        # the interpreter lost the emitted text (a call it does not follow): no verdict
+                        raise AnalysisError("R15e", f"{REL}::SqlFieldValCondition.make_text_update_values", f"{label}: the emitted text is not determined ({text!r})")
                     if fop in ("IN", "NOT IN"):
                         if empty:
                             wtext = C("0" if fop == "IN" else "1")
